@@ -1,0 +1,7 @@
+#include "verif_hooks.h"
+#ifdef SQFVM_RUNTIME_VERIF
+namespace sqf::runtime::verif
+{
+    hook_table hooks = {};
+}
+#endif
